@@ -155,8 +155,11 @@ class DocEngine:
             weights += [("set_part_many", 2.5 if (self.prop == "C10" and self.twin is None) else 0.8)]
         if self.prop == "C10":
             if self.twin is None and rng.chance(self.cfg.get("p_clone", 0.45), "clone?"):
-                return {"op": "clone_doc"}
-            weights += [("clone_part", 2), ("clone_container", 1), ("twin_save_over_source", 1.5 if (self.twin is not None and self.sut.src.get("path") and self.sut.src["packaging"] == "zip") else 0)]
+                op = {"op": "clone_doc"}
+                if rng.chance(0.2, "clonefault?"):
+                    op["fault"] = {"site": rng.choice(["zip_read", "read_bytes", "zip_open_r"], "cfsite"), "k": rng.randint(1, 6, "cfk"), "errno": "EIO"}
+                return op
+            weights += [("twin_package_check", 1.5 if self.twin is not None else 0), ("clone_part", 2), ("clone_container", 1), ("twin_save_over_source", 1.5 if (self.twin is not None and self.sut.src.get("path") and self.sut.src["packaging"] == "zip") else 0)]
         if self.prop == "C15" and cfg.get("start_empty") and len(self.stats.c) and self.stats.c.get("op:clear_body", 0) == 0 and self.stats.c.get("op:read", 0) == 0 and self._doc_type() == "text":
             return {"op": "clear_body"}
         if self.prop == "C15":
@@ -167,7 +170,7 @@ class DocEngine:
                        ("merge", 2.5 if self.other is not None else 0), ("page_break_style", 1), ("table_displayed", 1 if self._doc_type() == "spreadsheet" else 0),
                        ("relookup", 2), ("touch", 1), ("edit", 1), ("save", 2.5 if self.n_saves < cfg["max_saves"] else 0), ("reopen", 3 if self._reopenable() else 0)]
         if self.prop == "C11":
-            weights = [("touch", 10 * cfg["p_touch"]), ("edit", 3), ("rich_para", 6), ("add_file", 1), ("save_set", 10 * cfg["p_save"] if self.n_saves < cfg["max_saves"] else 0),
+            weights = [("touch", 10 * cfg["p_touch"]), ("edit", 3), ("rich_para", 6), ("add_file", 1), ("set_part", 1.5), ("save_set", 10 * cfg["p_save"] if self.n_saves < cfg["max_saves"] else 0),
                        ("reopen", (3 * cfg["p_reopen"]) if self._reopenable() else 0)]
         name = rng.weighted(weights, "op")
         op = {"op": name}
@@ -189,7 +192,7 @@ class DocEngine:
                 op["kind"] = "subobject"
                 op["name"] = rng.choice(subs, "subname")
         elif name == "set_part":
-            kind = rng.weighted([("xml", 5), ("bin_existing", 2), ("new", 2)], "spkind")
+            kind = rng.weighted([("xml", 5), ("bin_existing", 2), ("new", 2 if self.prop != "C11" else 0)], "spkind")
             op["kind"] = kind
             op["n"] = n
             if kind == "xml":
@@ -232,8 +235,10 @@ class DocEngine:
             variants = [("zip", True), ("folder", None), ("folder", False), ("xml", None), ("xml", False), ("zip", None)]
             k = rng.randint(1, 4, "nvariants")
             op["variants"] = [{"packaging": pk, "pretty": pr, "target": ("bytesio" if pk != "folder" and rng.chance(0.5, "vt") else "path")} for pk, pr in rng.sample(variants, k, "variants")]
+            if rng.chance(0.3, "reuse_buf"):
+                op["reuse_buffer"] = True  # zip variants written to a buffer go to ONE buffer, one after the other
             if rng.chance(self.cfg["p_fault"], "fault?"):
-                op["fault"] = {"site": rng.choice(["writestr", "write_bytes", "bytesio_write", "mkdir", "rmtree"], "fsite"), "k": rng.randint(1, 6, "fk"), "errno": rng.choice(["ENOSPC", "EIO"], "ferr"), "partial": rng.chance(0.5, "fpartial"), "at": rng.randint(0, k - 1, "fat")}
+                op["fault"] = {"site": rng.choice(["writestr", "write_bytes", "bytesio_write", "mkdir", "rmtree", "zip_read", "zip_open_r", "read_bytes"], "fsite"), "k": rng.randint(1, 6, "fk"), "errno": rng.choice(["ENOSPC", "EIO"], "ferr"), "partial": rng.chance(0.5, "fpartial"), "at": rng.randint(-1, k - 1, "fat")}
         elif name in ("ins_style", "ins_style_other"):
             op = doc_styles.gen_insert(self, rng, n, "main" if name == "ins_style" else "other")
             op["op"] = name
@@ -394,7 +399,7 @@ class DocEngine:
         snap = None
         if other is not None and name not in ("touch",):
             try:
-                snap = self._memory(other)
+                snap = self._twin_expected(other)  # (does not load anything: the other twin stays as lazy as it is)
             except Exception:
                 snap = None
         saved = self.sut
@@ -411,56 +416,129 @@ class DocEngine:
             return vs
         if snap is not None:
             try:
-                now = self._memory(other)
+                now = self._twin_actual(other)
             except Exception as e:
                 return [Violation("C10", "twin-unreadable", name, self._feats() + ["on_twin" if on_twin else "on_orig"], type(e).__name__, f"{type(e).__name__}: {e}")]
-            d = self._mem_diff(snap, now)
-            if d is None and set(now) != set(snap):
-                d = f"parts appeared in the untouched twin: {sorted(set(now) - set(snap))[:3]}"
-            if d:
-                return [Violation("C10", "twin-changed", name, self._feats() + ["on_twin" if on_twin else "on_orig"], None, "the untouched twin changed: " + d)]
+            for n in snap:
+                if now.get(n) != snap[n]:
+                    return [Violation("C10", "twin-changed", name, self._feats() + ["on_twin" if on_twin else "on_orig", "part:" + n], None, f"the untouched twin changed: {n} no longer is what it was before this operation on the other twin")]
         return []
+
+    def _twin_expected(self, sut):
+        """what every part of that twin must be, WITHOUT reading anything through it: the
+        live tree for parts the history parsed, the part-store model for the others"""
+        exp = {}
+        for n in sut.store.names():
+            if n.endswith("/") or n == ds.RDF:
+                continue
+            if n in sut.store.touched:
+                exp[n] = ds.canon(n, sut.doc.get_part(n).serialize())
+            else:
+                exp[n] = ds.canon(n, sut.store.current(n))
+        return exp
+
+    def _twin_actual(self, sut):
+        """the same, read through the public API (this loads lazily loaded parts)"""
+        act = {}
+        for n in sut.store.names():
+            if n.endswith("/") or n == ds.RDF:
+                continue
+            if n in sut.store.touched:
+                act[n] = ds.canon(n, sut.doc.get_part(n).serialize())
+            else:
+                act[n] = ds.canon(n, sut.doc.container.get_part(n))
+        return act
 
     def _op_clone_doc(self, op):
         if self.twin is not None:
             return []
         sut = self.sut
         try:
-            before = self._memory(sut)
+            before = self._twin_expected(sut)  # model-based: the original stays lazy
         except Exception:
             return []
-        unread = [n for n in sut.store.names() if n not in sut.store.over and n not in sut.store.touched]
-        res, exc = self._call(lambda: sut.doc.clone, "clone")
-        self._outcome = f"clone_doc:{'exc' if exc else 'ok'}"
         feats = self._feats()
+        fault = op.get("fault")
+        if fault:
+            self.env.arm(fault)
+        res, exc = self._call(lambda: sut.doc.clone, "clone")
+        fired = self.env.disarm() if fault else False
+        if fired:
+            self.n_faults += 1
+            self.stats.probe("fault:" + fault["site"] + ":" + fault["errno"])
+            feats = feats + ["fault:" + fault["site"]]
+            if exc is not None:
+                # fail-stop: cloning may fail; a retry must then give a complete clone
+                self.stats.probe("fault_survived_by_raise")
+                res, exc = self._call(lambda: sut.doc.clone, "clone")
+        self._outcome = f"clone_doc:{'exc' if exc else 'ok'}"
         if exc is not None:
             return [Violation("C10", "clone-raises", "clone_doc", feats, type(exc).__name__, f"{type(exc).__name__}: {exc}")]
         self.stats.probe("clone_doc")
-        if "edited" in self.flags or self.n_edits:
+        if self.n_edits:
             self.stats.probe("clone_after_unsaved_edit")
+        if any(n not in sut.store.over and n not in sut.store.touched for n in sut.store.names()) and sut.src.get("path"):
+            self.stats.probe("clone_of_lazily_loaded_document")
         tw = ds.DocSUT(self.scratch)
         tw.counter = 1000
         tw.doc = res
         st = ds.PartStore()
         st.mimetype = sut.store.mimetype
         for n in sut.store.names():
-            st.base[n] = b"" if n.endswith("/") else before.get(n, sut.store.current(n))
+            if n.endswith("/"):
+                st.base[n] = b""
+            elif n in sut.store.touched:
+                st.base[n] = sut.doc.get_part(n).serialize()
+            else:
+                st.base[n] = sut.store.current(n)
         tw.store = st
         tw.src = {"kind": "clone", "path": None, "packaging": "zip"}
         self.twin = tw
-        after = self._memory(sut)
-        d = self._mem_diff(before, after)
-        if d:
-            return [Violation("C10", "clone-modified-original", "clone_doc", feats, None, d)]
         try:
-            born = self._memory(tw)
+            born = self._twin_actual(tw)
         except Exception as e:
             return [Violation("C10", "twin-unreadable", "clone_doc", feats + ["at_birth"], type(e).__name__, f"{type(e).__name__}: {e}")]
-        d = self._mem_diff(before, born)
-        if d is None and set(born) != set(before):
-            d = f"part lists differ: {sorted(set(born) ^ set(before))[:3]}"
-        if d:
-            return [Violation("C10", "clone-differs-at-birth", "clone_doc", feats, None, d)]
+        for n in before:
+            if born.get(n) != before[n]:
+                return [Violation("C10", "clone-differs-at-birth", "clone_doc", feats + ["part:" + n], None, f"{n} of the clone is not what the original holds")]
+        # cloning never modifies the original: parsed parts as before; nothing resurrected or lost
+        for n in sut.store.touched:
+            if n in before and ds.canon(n, sut.doc.get_part(n).serialize()) != before[n]:
+                return [Violation("C10", "clone-modified-original", "clone_doc", feats + ["part:" + n], None, f"{n} of the original changed while cloning")]
+        # the set of parts of the clone, as an independent reader of its saved package sees it
+        buf = io.BytesIO()
+        r2, e2 = self._call(lambda: res.save(buf), "save")
+        tw.store.touched |= {"meta.xml", ds.MANIFEST}
+        if e2 is not None:
+            return [Violation("C10", "twin-unreadable", "clone_doc", feats + ["clone_save"], type(e2).__name__, f"{type(e2).__name__}: {e2}")]
+        pkg = xmlref.read_package(buf.getvalue())
+        want = {n for n in sut.store.names() if not n.endswith("/")}
+        got = set(pkg.parts)
+        extra, missing = sorted(got - want - {ds.RDF}), sorted(want - got - {ds.RDF})
+        if extra or missing:
+            return [Violation("C10", "clone-differs-at-birth", "clone_doc", feats + ["part_list"], None, f"the clone's package has extra parts {extra[:3]} / lacks {missing[:3]} compared with the original in memory")]
+        return []
+
+    def _op_twin_package_check(self, op):
+        """save the (active) twin to a buffer: the package must hold exactly the parts of
+        that twin (nothing brought in from the other twin or from an overwritten source)"""
+        sut = self.sut
+        try:
+            exp = self._expected_for_save()
+        except Exception:
+            return []
+        buf = io.BytesIO()
+        res, exc = self._call(lambda: sut.doc.save(buf), "save")
+        sut.store.touched |= {"meta.xml", ds.MANIFEST}
+        self._outcome = f"twin_package_check:{'exc' if exc else 'ok'}"
+        feats = self._feats() + (["on_twin"] if op.get("on") == "twin" else ["on_orig"])
+        if exc is not None:
+            return [Violation("C10", "twin-unreadable", "twin_package_check", feats, type(exc).__name__, f"{type(exc).__name__}: {exc}")]
+        pkg = xmlref.read_package(buf.getvalue())
+        e2 = {k: v for k, v in exp.items() if v is not None}
+        optional = {k for k, v in exp.items() if v is None}
+        for kind, det in ds.compare_package(pkg, e2, optional):
+            return [Violation("C10", "twin-package-" + kind, "twin_package_check", feats, None, det)]
         return []
 
     def _op_twin_save_over_source(self, op):
@@ -790,9 +868,28 @@ class DocEngine:
             self._outcome = "save_set:memory-unreadable"
             return []
         base_feats = self._feats()
-        # reference: plain zip
+        fault = op.get("fault")
+        # reference: plain zip (this is also where parts not read yet are loaded)
         ref_buf = io.BytesIO()
+        armed0 = bool(fault) and fault.get("at") == -1
+        if armed0:
+            self.env.arm(fault)
         res, exc = self._call(lambda: doc.save(ref_buf, pretty=False), "save")
+        if armed0:
+            if self.env.disarm():
+                self.n_faults += 1
+                self.stats.probe("fault:" + fault["site"] + ":" + fault["errno"])
+                base_feats = base_feats + ["fault_on_first_save:" + fault["site"]]
+                if exc is not None:
+                    # fail-stop: memory as it was, and the retry is a correct save
+                    self.stats.probe("fault_survived_by_raise")
+                    d = self._mem_diff(m0, self._memory())
+                    if d:
+                        return [Violation("C11", "memory-changed-by-save", "save_set", base_feats + ["save_raised"], None, d)]
+                    ref_buf = io.BytesIO()
+                    res, exc = self._call(lambda: doc.save(ref_buf, pretty=False), "save")
+                else:
+                    self.stats.probe("fault_swallowed_save_returned")
         if exc is not None:
             self._outcome = "save_set:ref-raises"
             return [Violation("C11", "save-raises", "save_set", base_feats + ["pk:zip", "pretty:False"], type(exc).__name__, str(exc))]
@@ -804,12 +901,16 @@ class DocEngine:
             return [Violation("C11", "memory-changed-by-save", "save_set", base_feats + ["pk:zip", "pretty:False"], None, d)]
         ref_roots = {n: etree.fromstring(ref.parts[n]) for n in ("content.xml", "styles.xml", "meta.xml", "settings.xml") if n in ref.parts}
         self.artifacts.append({"packaging": "zip", "data": ref_buf.getvalue(), "expected": {}, "mimetype": st.mimetype, "feats": base_feats})
-        fault = op.get("fault")
         out = []
+        shared_buf = simenv.FaultyBytesIO() if op.get("reuse_buffer") else None
         for i, v in enumerate(op["variants"]):
             pk, pr = v["packaging"], v["pretty"]
             feats = base_feats + ["pk:" + pk, "pretty:" + str(pr)]
-            if v["target"] == "bytesio" and pk != "folder":
+            if v["target"] == "bytesio" and pk == "zip" and shared_buf is not None:
+                target = shared_buf
+                if shared_buf.tell():
+                    self.stats.probe("env:bytesio-target-already-holds-data")
+            elif v["target"] == "bytesio" and pk != "folder":
                 target = simenv.FaultyBytesIO()
             else:
                 target = self.sut.newpath("var")
